@@ -43,6 +43,9 @@ impl<'cache> ParserConfig<'cache> {
 /// tile exactly the byte span of `tokens`, in order; it touches neither the token stream nor the
 /// cursor; it uses the marker API only (events grow, NodeStarts stay NodeStarts) and leaves
 /// `mark_level` at least at its entry value. This is the one unverified link of C01/L2.
+/// ASSUMED as well (C02 / H-EV): it preserves `l3::events_ok`. Basis: `LuaDocParser` reaches the event list only through
+/// its `MarkerEventContainer` impl (delegation to `LuaParser`) and the marker API, each of which is PROVED here to preserve
+/// `events_ok`, and through `LuaParser::bump`-like pushes of `EatToken` (no parent link); the doc grammar is not extracted.
 pub struct LuaDocParser { _p: () }
 impl LuaDocParser {
     #[verifier::external_body]
@@ -59,6 +62,7 @@ impl LuaDocParser {
             lvl_ok(final(lua_parser)),
             grows(eaten(old(lua_parser).events@), eaten(final(lua_parser).events@)),
             chain_over(eaten(final(lua_parser).events@).skip(eaten(old(lua_parser).events@).len() as int), ranges(tokens@)),
+            l3::events_ok(old(lua_parser).events@) ==> l3::events_ok(final(lua_parser).events@), // ASSUMED (see above)
     { unimplemented!() }
 }
 
@@ -66,6 +70,10 @@ impl LuaDocParser {
 /// parser state only through the driver and marker functions proved in this unit (module privacy of
 /// `events`/`tokens`/`token_index`), so it preserves `inv`, never moves the cursor backwards, never
 /// changes the number of tokens, their ranges (only `set_current_token_kind` writes a token, and only its kind) or the configuration, and leaves `mark_level` at least at its entry value.
+/// ASSUMED as well (C02 / H-EV): it preserves `l3::events_ok` — same basis: every write to `events` made by the grammar is a call
+/// of `mark` / `push_node_end` / `Marker::{set_kind,complete,undo}` / `CompleteMarker::precede` / `bump` /
+/// `set_current_token_kind`, each PROVED here to preserve `events_ok`; that the grammar has no other write access is the
+/// module-privacy argument above (grep, not proved).
 #[verifier::external_body]
 pub fn parse_stats(p: &mut LuaParser)
     requires
@@ -78,9 +86,26 @@ pub fn parse_stats(p: &mut LuaParser)
         final(p).parse_config == old(p).parse_config,
         ev_mono(old(p).events@, final(p).events@),
         final(p).mark_level >= old(p).mark_level,
+        l3::events_ok(old(p).events@) ==> l3::events_ok(final(p).events@), // ASSUMED (see above)
 { unimplemented!() }
 
+//@@include c01_parser/iface.rs
+
 //@@include c01_parser/lemmas.rs
+
+// ---------------------------------------------------------------------------------------------
+// interface of unit c01_green, verbatim (the file c01_green itself includes): `l3::events_ok` is the precondition of
+// `LuaTreeBuilder::build` that this unit proves as an invariant of the marker API and the parser driver.
+// Nothing else of that file is used here (its `eaten` is the c01_green spelling; c01_compose proves the two equal).
+// ---------------------------------------------------------------------------------------------
+pub mod l3 {
+    use vstd::prelude::*;
+    use vstd::string::*;
+    use super::*;
+//@@include c01_green/iface.rs
+}
+
+//@@include c01_parser/evok.rs
 
 // ---------------------------------------------------------------------------------------------
 // extracted: marker API
